@@ -57,6 +57,10 @@ CHECKS = {
          "Sound static analysis of structural necessary conditions: one slot per request written only at the request's own index with either an empty value or the matched issuer's successful result; lookup by the request's type and last byte of the key id; a failing issuer neither ends the search nor the batch; present/absent status derived from slot emptiness with the same index; decoder mirrors the layout; the basic issuers' Evaluate succeed only behind their decode/evaluate/encode success edges with no error dropped. Does not decide that a present entry finalizes to a valid token (C01/C02).",
          "Trusts go/ssa dominators/loops, this checker's term evaluator; registered issuers behave like the repository's (non-empty response on success).",
          "DESIGN.md §4 C05"),
+ "C18": ("symbolic ASN.1 layout terms (cryptobyte builder trees with OIDs by value), checked read sequences, return-term bindings on SSA",
+         "Sound static analysis of structural necessary conditions: MarshalTokenKeyPSSOID's builder term equals the prescribed RSASSA-PSS SPKI tree (SHA-384, MGF1-SHA-384, salt 48; OIDs by value, single initialisation); UnmarshalTokenKey performs the checked SEQ{SEQ,BITSTRING{SEQ{INT,INT}}} reads and returns the integers read; every issuer's TokenKeyID is a freshly computed SHA-256 of its serialized public key; type-1/2/5 requests carry the last byte of the id; the type-3 name key id is SHA-256 of the EncapKey encoding. Does not decide DER round trips for every modulus/exponent (encoding/asn1, cryptobyte).",
+         "Trusts go/ssa, this checker's term and reader extractors, encoding/asn1 and cryptobyte as documented.",
+         "DESIGN.md §4 C18"),
 }
 PENDING_REASON = "check under construction in this round (see DESIGN.md §4 for the planned static rule); not claimed until the rule runs clean on the tree and fires on its seeded breakage"
 NOT_APPLICABLE = {}
